@@ -995,7 +995,7 @@ func isFieldOfParam(v ssa.Value, p *ssa.Parameter, typ func(types.Type) bool) bo
 // ownsValue: v is a parameter or free variable (or a load through the heap
 // cell of a captured variable) of ent or of its enclosing functions.
 func ownsValue(v ssa.Value, ent *ssa.Function) bool {
-	for i := 0; i < 4; i++ {
+	for i := 0; i < 8; i++ {
 		switch x := v.(type) {
 		case *ssa.Parameter:
 			for f := ent; f != nil; f = f.Parent() {
@@ -1008,6 +1008,8 @@ func ownsValue(v ssa.Value, ent *ssa.Function) bool {
 			return x.Parent() == ent
 		case *ssa.UnOp:
 			v = x.X
+		case *ssa.FieldAddr:
+			v = x.X // a field of a record the function was handed (a validator object holding the caller's options)
 		default:
 			return false
 		}
